@@ -16,6 +16,7 @@ import (
 type Snapshotter struct {
 	Ignore   map[string]bool // "TypeName.fieldName"
 	MaxDepth int
+	SkipPkgs []string // struct types of these packages are treated as opaque
 	sb       strings.Builder
 	ptrs     map[unsafe.Pointer]int
 	depth    int
@@ -109,6 +110,12 @@ func (s *Snapshotter) walk(v reflect.Value) {
 		s.walk(e)
 	case reflect.Struct:
 		t := v.Type()
+		for _, p := range s.SkipPkgs {
+			if t.PkgPath() == p {
+				s.sb.WriteString(t.String() + "{opaque}")
+				return
+			}
+		}
 		s.sb.WriteString(t.Name() + "{")
 		for i := 0; i < v.NumField(); i++ {
 			f := t.Field(i)
@@ -166,7 +173,7 @@ func (s *Snapshotter) walk(v reflect.Value) {
 		var items []kv
 		it := v.MapRange()
 		for it.Next() {
-			sub := &Snapshotter{Ignore: s.Ignore, MaxDepth: s.MaxDepth, ptrs: s.ptrs, depth: s.depth}
+			sub := &Snapshotter{Ignore: s.Ignore, MaxDepth: s.MaxDepth, SkipPkgs: s.SkipPkgs, ptrs: s.ptrs, depth: s.depth}
 			sub.walk(it.Key())
 			ks := sub.sb.String()
 			sub.sb.Reset()
